@@ -119,18 +119,58 @@ class Bind:
     def __init__(self, call, var, sub):
         self.call, self.var, self.sub = call, var, sub
 
+COND_STRUCT = {}   # Lean Bool term -> ('and'|'or'|'not', operands): lets a decided compound condition decide its parts
+
+def learn(path, cond, truth):
+    """record that `cond` is `truth` on this path, together with what follows for its sub-conditions"""
+    if truth:
+        path.known_true = path.known_true | {cond}
+    else:
+        path.known_false = path.known_false | {cond}
+    st = COND_STRUCT.get(cond)
+    if st is None:
+        return
+    if st[0] == 'not':
+        learn(path, st[1], not truth)
+    elif st[0] == 'and' and truth:
+        learn(path, st[1], True); learn(path, st[2], True)
+    elif st[0] == 'or' and not truth:
+        learn(path, st[1], False); learn(path, st[2], False)
+
+def decided(path, cond):
+    """True / False if the condition is already decided on this path, else None"""
+    if cond == 'true' or cond in path.known_true:
+        return True
+    if cond == 'false' or cond in path.known_false:
+        return False
+    st = COND_STRUCT.get(cond)
+    if st is None:
+        return None
+    if st[0] == 'not':
+        d = decided(path, st[1])
+        return None if d is None else (not d)
+    a, b = decided(path, st[1]), decided(path, st[2])
+    if st[0] == 'and':
+        if a is False or b is False:
+            return False
+        if a is True and b is True:
+            return True
+    if st[0] == 'or':
+        if a is True or b is True:
+            return True
+        if a is False and b is False:
+            return False
+    return None
+
 def mk_ite(cond, kt, kf, path):
     """fork on a Lean Bool term (a condition already decided on this path is not forked again)"""
-    neg = cond[2:-1] if cond.startswith('(!') and cond.endswith(')') else None
-    if cond == 'true' or cond in path.known_true or (neg and neg in path.known_false):
+    d = decided(path, cond)
+    if d is True:
         return kt(path)
-    if cond == 'false' or cond in path.known_false or (neg and neg in path.known_true):
+    if d is False:
         return kf(path)
     pt, pf = path.copy(), path.copy()
-    if neg:
-        pt.known_false = pt.known_false | {neg}; pf.known_true = pf.known_true | {neg}
-    else:
-        pt.known_true = pt.known_true | {cond}; pf.known_false = pf.known_false | {cond}
+    learn(pt, cond, True); learn(pf, cond, False)
     return Node(cond, kt(pt), kf(pf))
 
 def paren(s):
@@ -327,9 +367,11 @@ class Translator:
             def got(path, v):
                 v = self.rv(v, path)
                 b = v[1] if v[0] in ('b', 'bi') else self.as_bool(v, path)
-                if b.startswith('(!') and b.endswith(')'):
+                if b.startswith('(!') and b.endswith(')') and COND_STRUCT.get(b, (None,))[0] == 'not':
                     return k(path, ('b', b[2:-1]))
-                return k(path, ('b', f'(!{b})'))
+                nb = f'(!{b})'
+                COND_STRUCT[nb] = ('not', b)
+                return k(path, ('b', nb))
             return self.ev(sub, path, got)
         if op in ('++', '--'):
             info = int_info(qtype(n)) or int_info(qtype(sub))
@@ -365,7 +407,9 @@ class Translator:
                 ca = self.as_bool(av, path)
                 def gotb(path, bv):
                     cb = self.as_bool(bv, path)
-                    return k(path, ('b', f'({ca} {op} {cb})'))
+                    term = f'({ca} {op} {cb})'
+                    COND_STRUCT[term] = ('and' if op == '&&' else 'or', ca, cb)
+                    return k(path, ('b', term))
                 return self.ev(b, path, gotb)     # operands in this subset are side-effect free
             return self.ev(a, path, gota)
         def gota(path, av):
@@ -971,6 +1015,15 @@ def main():
                 with open(path, 'w') as f:
                     f.write(text)
             status['files'][tag] = {'path': path, 'sha256': hashlib.sha256(text.encode()).hexdigest(), 'changed': old != text}
+            # the proof obligations over the regenerated definitions: one instance of every template per size type
+            bridge = os.path.join(os.path.dirname(os.path.abspath(a.out)), 'Bridge')
+            for tpl in sorted(os.listdir(bridge)):
+                if tpl.endswith('.lean.in'):
+                    inst = open(os.path.join(bridge, tpl)).read().replace('@TAG@', tag)
+                    ipath = os.path.join(bridge, tpl[:-len('.lean.in')] + tag + '.lean')
+                    if not os.path.exists(ipath) or open(ipath).read() != inst:
+                        with open(ipath, 'w') as f:
+                            f.write(inst)
     print(json.dumps(status))
     sys.exit(0 if status['ok'] else 2)
 
